@@ -234,11 +234,28 @@ func oneHistory(g *hc.Gen, o *hc.Out, scratch, bin string, h int) {
 				if !changed[p] && !tr.created[p] && inode[p] != 0 && inodeOf(d, p) != inode[p] {
 					var sqls []string
 					for _, st := range program {
-						sqls = append(sqls, st.sql)
+						sqls = append(sqls, strings.ReplaceAll(st.sql, "\x01", d))
 					}
 					o.Law("untouched_file_rewritten", map[string]interface{}{"file": fmt.Sprintf("f%d.csv", p), "at": where, "history": h, "initial_files": init, "statements_so_far": sqls})
 				}
 			}
+		}
+		// one file, many spellings: every way of naming a table must reach the same cached view and the same lock
+		// (`\x01` stands for the absolute repository directory; replays in other directories put "." there)
+		tn := func(p int) string {
+			switch g.Intn(9) {
+			case 0:
+				return fmt.Sprintf("`./f%d.csv`", p)
+			case 1:
+				return fmt.Sprintf("`\x01/f%d.csv`", p)
+			case 2:
+				return fmt.Sprintf("`\x01//f%d.csv`", p)
+			case 3:
+				return fmt.Sprintf("`\x01/./f%d.csv`", p)
+			case 4:
+				return fmt.Sprintf("f%d", p)
+			}
+			return fmt.Sprintf("`f%d.csv`", p)
 		}
 		steps := 3 + g.Intn(14)
 		for s := 0; s < steps; s++ {
@@ -265,7 +282,7 @@ func oneHistory(g *hc.Gen, o *hc.Out, scratch, bin string, h int) {
 			switch c := g.Intn(20); {
 			case c < 5:
 				pickFile(true)
-				line, sql = fmt.Sprintf("c01.select %d", p), fmt.Sprintf("SELECT v FROM `f%d.csv`", p)
+				line, sql = fmt.Sprintf("c01.select %d", p), fmt.Sprintf("SELECT v FROM %s", tn(p))
 			case c < 7 && g.Intn(3) == 0:
 				// FOR UPDATE reaches every table of the FROM clause
 				pickFile(true)
@@ -280,11 +297,11 @@ func oneHistory(g *hc.Gen, o *hc.Out, scratch, bin string, h int) {
 				line = fmt.Sprintf("c01.selectfu2 %d %d", p, q)
 				switch form {
 				case "JOIN":
-					sql = fmt.Sprintf("SELECT a.v FROM `f%d.csv` a JOIN `f%d.csv` b ON a.v = b.v FOR UPDATE", p, q)
+					sql = fmt.Sprintf("SELECT a.v FROM %s a JOIN %s b ON a.v = b.v FOR UPDATE", tn(p), tn(q))
 				case "CROSS":
-					sql = fmt.Sprintf("SELECT a.v FROM `f%d.csv` a CROSS JOIN `f%d.csv` b WHERE a.v = b.v FOR UPDATE", p, q)
+					sql = fmt.Sprintf("SELECT a.v FROM %s a CROSS JOIN %s b WHERE a.v = b.v FOR UPDATE", tn(p), tn(q))
 				default:
-					sql = fmt.Sprintf("SELECT a.v FROM `f%d.csv` a, `f%d.csv` b WHERE a.v = b.v FOR UPDATE", p, q)
+					sql = fmt.Sprintf("SELECT a.v FROM %s a, %s b WHERE a.v = b.v FOR UPDATE", tn(p), tn(q))
 				}
 				if tr.exists[p] {
 					tr.locked[p] = true
@@ -294,7 +311,7 @@ func oneHistory(g *hc.Gen, o *hc.Out, scratch, bin string, h int) {
 				}
 			case c < 7:
 				pickFile(true)
-				line, sql = fmt.Sprintf("c01.selectfu %d", p), fmt.Sprintf("SELECT v FROM `f%d.csv` FOR UPDATE", p)
+				line, sql = fmt.Sprintf("c01.selectfu %d", p), fmt.Sprintf("SELECT v FROM %s FOR UPDATE", tn(p))
 				if tr.exists[p] {
 					tr.locked[p] = true
 				}
@@ -310,7 +327,7 @@ func oneHistory(g *hc.Gen, o *hc.Out, scratch, bin string, h int) {
 				}
 				a := g.Intn(5)
 				line = fmt.Sprintf("c01.deljoin %d %d %d", p, q, a)
-				sql = fmt.Sprintf("DELETE a, b FROM `f%d.csv` a LEFT JOIN `f%d.csv` b ON a.v = b.v WHERE a.v = %d;", p, q, a)
+				sql = fmt.Sprintf("DELETE a, b FROM %s a LEFT JOIN %s b ON a.v = b.v WHERE a.v = %d;", tn(p), tn(q), a)
 				if tr.exists[p] {
 					tr.locked[p] = true
 					if tr.exists[q] {
@@ -320,7 +337,7 @@ func oneHistory(g *hc.Gen, o *hc.Out, scratch, bin string, h int) {
 			case c < 12:
 				pickFile(true)
 				k, a := kinds[g.Intn(len(kinds))], g.Intn(5)
-				line, sql = fmt.Sprintf("c01.dml %d %s %d", p, k, a), dmlSQL(fmt.Sprintf("`f%d.csv`", p), k, a)
+				line, sql = fmt.Sprintf("c01.dml %d %s %d", p, k, a), dmlSQL(fmt.Sprintf("%s", tn(p)), k, a)
 				if tr.exists[p] {
 					tr.locked[p] = true
 				}
@@ -358,6 +375,7 @@ func oneHistory(g *hc.Gen, o *hc.Out, scratch, bin string, h int) {
 				continue
 			}
 			// run the statement
+			sql = strings.ReplaceAll(sql, "\x01", d)
 			if strings.HasPrefix(sql, "SELECT") {
 				v, err := pr.Query(sql)
 				if err != nil {
@@ -402,7 +420,7 @@ func oneHistory(g *hc.Gen, o *hc.Out, scratch, bin string, h int) {
 			}
 			o.Case(line, got+"|"+diskState(d, tr)+"|"+tempState(pr, tr))
 			o.Count("op:" + strings.Fields(line)[0])
-			program = append(program, op{line: line, sql: sql, kind: got})
+			program = append(program, op{line: line, sql: strings.ReplaceAll(sql, d, "\x01"), kind: got})
 		}
 		// the way the run ends
 		how := g.Pick("normal", "normal", "error", "exit", "interrupt", "interrupt")
@@ -447,7 +465,7 @@ func oneHistory(g *hc.Gen, o *hc.Out, scratch, bin string, h int) {
 			stoppedByFailure := false
 			interruptCommit := how == "interrupt" && g.Intn(2) == 0
 			for _, st := range program {
-				s := st.sql
+				s := strings.ReplaceAll(st.sql, "\x01", ".")
 				if !strings.HasSuffix(s, ";") {
 					s += ";"
 				}
